@@ -121,6 +121,9 @@ func kOperandHasTie(cs *core.Case, st *mstore.Store) bool {
 			// the reference rejects the operand (a known finding): use the engine's own view
 			r = core.RunEngine(&sub, st).Res
 			if r.Failed() {
+				// rejected by both (several series of one label set at a step): which of
+				// them a topk above keeps is arbitrary
+				tie = true
 				return nil
 			}
 		}
